@@ -52,10 +52,14 @@ func familyBatches(starts []int64) []B {
 func familyCases(thorough bool, f func(BatchCase)) {
 	bs := familyBatches([]int64{1e9, 5e8, 11e9})
 	for _, rec := range []bool{false, true} {
-		for _, a := range bs {
+		for ai, a := range bs {
 			f(BatchCase{Batches: []B{a}, RecTime: rec})
-			for _, b := range bs {
+			f(BatchCase{Batches: []B{a}, RecTime: rec, Slow: true})
+			for bi, b := range bs {
 				f(BatchCase{Batches: []B{a, b}, RecTime: rec})
+				if thorough || (ai+bi)%4 == 0 {
+					f(BatchCase{Batches: []B{a, b}, RecTime: rec, Slow: true})
+				}
 			}
 		}
 	}
@@ -77,6 +81,34 @@ func familyCases(thorough bool, f func(BatchCase)) {
 	}
 }
 
+// ---------------------------------------------------------------- enumerated stream family
+//
+// Every sequence of 1-2 points over measurement names {plain, with space, with comma, with '=', looking like
+// "name,tag=value"} x tag sets {nil, empty, one plain tag, a tag value with a space} x field keys {plain, with space},
+// both clock modes, fast and slow collector.
+
+func streamFamily(f func(StreamCase)) {
+	var pts []P
+	for _, name := range []string{"m", "a b", "a,b", "a=b", "m,t=v"} {
+		for ti, tags := range []map[string]string{nil, {}, {"t": "v"}, {"t": "a b"}} {
+			for _, fk := range []string{"f", "a b"} {
+				pts = append(pts, P{DB: "db", RP: "rp", Name: name, Tags: tags, Fields: []Fld{{K: fk, Kind: "f", F: float64(ti) + 0.5}}})
+			}
+		}
+	}
+	for _, rec := range []bool{false, true} {
+		for ai, a := range pts {
+			a.TNs = t0 + 1e9
+			f(StreamCase{Points: []P{a}, RecTime: rec, Precision: "n"})
+			f(StreamCase{Points: []P{a}, RecTime: rec, Precision: "n", Slow: true})
+			for bi, b := range pts {
+				b.TNs = t0 + 2e9
+				f(StreamCase{Points: []P{a, b}, RecTime: rec, Precision: "n", Slow: (ai+bi)%3 == 0})
+			}
+		}
+	}
+}
+
 // ---------------------------------------------------------------- the file-backed store of services/replay
 //
 // A batch recording is a zip archive with one entry per batch query of the task; replaying hands entry i to the
@@ -86,13 +118,16 @@ type StoreCase struct {
 	Queries int   // number of batch queries of the recorded task (0 = stream recording)
 	Counts  []int // batches recorded for query i: Counts[i % len(Counts)]
 	Points  int   // stream: number of points
+	// Prior: the path already holds an earlier, larger recording (a recording whose file could not be removed when it
+	// was deleted, or an id used again): the new recording replaces it
+	Prior bool `json:",omitempty"`
 }
 
 func (c StoreCase) String() string {
 	if c.Queries == 0 {
-		return fmt.Sprintf("stream recording of %d points through the file store", c.Points)
+		return fmt.Sprintf("stream recording of %d points through the file store (earlier larger recording at the path: %v)", c.Points, c.Prior)
 	}
-	return fmt.Sprintf("batch recording of a task with %d queries (batches per query, cyclic: %v) through the file store", c.Queries, c.Counts)
+	return fmt.Sprintf("batch recording of a task with %d queries (batches per query, cyclic: %v) through the file store (earlier larger recording at the path: %v)", c.Queries, c.Counts, c.Prior)
 }
 
 func runStore(t *testing.T, c StoreCase) (prob *problem) {
@@ -101,11 +136,30 @@ func runStore(t *testing.T, c StoreCase) (prob *problem) {
 		return runStoreStream(t, c, dir)
 	}
 	ds := replay.VerifFileSource(filepath.Join(dir, "rec.brpl"))
+	mk := func(q, k int) edge.BufferedBatchMessage {
+		tags := models.Tags{"query": fmt.Sprint(q)}
+		ts := tm(t0 + int64(k)*10e9 + 1e9)
+		pts := []edge.BatchPointMessage{edge.NewBatchPointMessage(models.Fields{"f": float64(q*100 + k)}, tags, ts)}
+		return edge.NewBufferedBatchMessage(edge.NewBeginBatchMessage(fmt.Sprintf("m%d", q), tags, false, ts, 1), pts, edge.NewEndBatchMessage())
+	}
+	if c.Prior {
+		ar, err := ds.BatchArchiver()
+		if err != nil {
+			return &problem{"store-record-error", err.Error()}
+		}
+		for q := 0; q < c.Queries+2; q++ {
+			w, _ := ar.Archive(q)
+			for k := 0; k < 3; k++ {
+				kapacitor.WriteBatchForRecording(w, mk(q+500, k))
+			}
+		}
+		ar.Close()
+	}
 	ar, err := ds.BatchArchiver()
 	if err != nil {
 		return &problem{"store-record-error", err.Error()}
 	}
-	mk := func(q, k int) edge.BufferedBatchMessage {
+	mk = func(q, k int) edge.BufferedBatchMessage {
 		tags := models.Tags{"query": fmt.Sprint(q)}
 		ts := tm(t0 + int64(k)*10e9 + 1e9)
 		pts := []edge.BatchPointMessage{edge.NewBatchPointMessage(models.Fields{"f": float64(q*100 + k)}, tags, ts)}
@@ -171,12 +225,22 @@ func runStore(t *testing.T, c StoreCase) (prob *problem) {
 
 func runStoreStream(t *testing.T, c StoreCase, dir string) (prob *problem) {
 	ds := replay.VerifFileSource(filepath.Join(dir, "rec.srpl"))
+	mk := func(i int) edge.PointMessage {
+		return edge.NewPointMessage("m", "db", "rp", models.Dimensions{}, models.Fields{"f": float64(i)}, models.Tags{"h": fmt.Sprint(i % 3)}, tm(t0+int64(i)*1e9))
+	}
+	if c.Prior {
+		w, err := ds.StreamWriter()
+		if err != nil {
+			return &problem{"store-record-error", err.Error()}
+		}
+		for i := 0; i < c.Points+200; i++ {
+			kapacitor.WritePointForRecording(w, mk(i+7000), "n")
+		}
+		w.Close()
+	}
 	w, err := ds.StreamWriter()
 	if err != nil {
 		return &problem{"store-record-error", err.Error()}
-	}
-	mk := func(i int) edge.PointMessage {
-		return edge.NewPointMessage("m", "db", "rp", models.Dimensions{}, models.Fields{"f": float64(i)}, models.Tags{"h": fmt.Sprint(i % 3)}, tm(t0+int64(i)*1e9))
 	}
 	for i := 0; i < c.Points; i++ {
 		if err := kapacitor.WritePointForRecording(w, mk(i), "n"); err != nil {
@@ -229,6 +293,12 @@ func storeCases(thorough bool) []StoreCase {
 	}
 	for _, n := range []int{0, 1, 2, 100, 5000} {
 		r = append(r, StoreCase{Points: n})
+		r = append(r, StoreCase{Points: n, Prior: true})
+	}
+	for q := 1; q <= 3; q++ {
+		for _, counts := range [][]int{{1}, {2}, {0, 1}} {
+			r = append(r, StoreCase{Queries: q, Counts: counts, Prior: true})
+		}
 	}
 	return r
 }
